@@ -22,6 +22,8 @@ type c28Variant struct {
 	Superset bool         // hand the combinator the up/down segments of every AS, not only those of src / dst
 	// Ext: ASes (by index) whose AS entries carry the optional signed extensions static info + discovery information
 	Ext func(as int) bool
+	// Resign: name of a c28ResignModes perturbation; the segments of the newer generation are rebuilt with it
+	Resign string
 }
 
 func c28Variants(tp *netsim.Topo, thorough bool) []c28Variant {
@@ -86,6 +88,19 @@ func c28Variants(tp *netsim.Topo, thorough bool) []c28Variant {
 			vs = append(vs, c28Variant{Name: fmt.Sprintf("epic:all-but-as%d", a), New: mod(epic(func(x int) bool { return x != a }))})
 		}
 	}
+	// re-built segments whose hop / peer entries carry values the real extender never combines (see c28resign_test.go):
+	// quick on the members with peering links, thorough everywhere; also as the newer of two generations
+	hasPeer := false
+	for _, l := range tp.Links {
+		hasPeer = hasPeer || l.Kind == netsim.PeerLink
+	}
+	if hasPeer || thorough {
+		for _, m := range c28ResignModes {
+			vs = append(vs, c28Variant{Name: "resign:" + m.name, New: mod(nil), Resign: m.name})
+		}
+		vs = append(vs, c28Variant{Name: "2gen/new:resign:peer-exp-lower", New: mod(nil), Old: mod(nil), OldFirst: true, Resign: "peer-exp-lower"})
+		vs = append(vs, c28Variant{Name: "2gen/new:resign:exp-all-distinct", New: mod(nil), Old: mod(nil), Resign: "exp-all-distinct"})
+	}
 	// the older generation predates the last peering link: its segments do not announce it (a peering link announced
 	// by one side only must not be used when generations are mixed)
 	if nl := len(tp.Links); nl > 0 && tp.Links[nl-1].Kind == netsim.PeerLink {
@@ -142,6 +157,8 @@ type c28SegSet struct {
 	Up   map[int][]*seg.PathSegment
 	Core []*seg.PathSegment
 	All  []*seg.PathSegment // every up/down segment of every AS (for the superset variants)
+	// Rebuilt: the segments were re-built with perturbed entries; MTUs / interfaces no longer mirror the topology
+	Rebuilt bool
 }
 
 // c28Beacon builds the network(s) of the variant and runs the real beaconing. Must run inside the bubble.
@@ -171,10 +188,23 @@ func c28Beacon(v c28Variant, maxLen int) (*c28SegSet, error) {
 	}
 	for _, g := range gens {
 		for as := range v.New.ASes {
-			s.Up[as] = append(s.Up[as], g.Up[as]...)
+			up := g.Up[as]
+			if v.Resign != "" && g == n {
+				if up, err = c28ResignAll(n, up, v.Resign); err != nil {
+					return nil, fmt.Errorf("re-building segments: %w", err)
+				}
+			}
+			s.Up[as] = append(s.Up[as], up...)
 		}
-		s.Core = append(s.Core, g.Core...)
+		core := g.Core
+		if v.Resign != "" && g == n {
+			if core, err = c28ResignAll(n, core, v.Resign); err != nil {
+				return nil, fmt.Errorf("re-building segments: %w", err)
+			}
+		}
+		s.Core = append(s.Core, core...)
 	}
+	s.Rebuilt = v.Resign != ""
 	for as := range v.New.ASes {
 		s.All = append(s.All, s.Up[as]...)
 	}
